@@ -141,6 +141,15 @@ class Exec:
             raw[pos] ^= 0x20
             s.deliver(i, data=bytes(raw), keep=True, note="corrupt")
             return True
+        if op == "truncate":
+            # deliver only the first n bytes of the i-th datagram in flight (a middlebox that cuts datagrams); the original stays
+            if not s.net:
+                return False
+            i = st[1] % len(s.net)
+            raw = s.net[i]["data"]
+            n = max(1, min(st[2], len(raw) - 1))
+            s.deliver(i, data=bytes(raw[:n]), keep=True, note="corrupt")
+            return True
         if op == "ncid":
             # ["ncid", src, k, back]: a key-holding peer re-sends the k-th NEW_CONNECTION_ID frame src has emitted so far
             # (same sequence number, connection ID and reset token: consistent with what src issued) with
@@ -261,6 +270,8 @@ def random_script(rnd, n_steps, profile, streams=None, sizes=None):
             out.append(["blackout"])
         elif k == "corrupt":
             out.append(["corrupt", rnd.randrange(8), rnd.choice([30, 60, 200, 700, 1150])])
+        elif k == "truncate":
+            out.append(["truncate", rnd.randrange(8), rnd.choice([1, 7, 25, 600, 1100, 1199])])
         elif k == "ncid":
             out.append(["ncid", rnd.choice("cs"), rnd.randrange(16), rnd.choice([0, 0, 1, 2, 5])])
         elif k == "spoof":
@@ -274,12 +285,12 @@ PROFILES = {
     "tailloss": {"write": 6, "deliver": 4, "drop": 4, "timer": 5, "tick": 0.5},
     "flow": {"write": 7, "deliver": 8, "drop": 1.5, "dup": 0.5, "timer": 3, "tick": 1, "reset": 0.4, "stop": 0.2},
     "closing": {"write": 4, "deliver": 6, "drop": 1, "dup": 0.5, "timer": 2, "late": 0.7, "tick": 1, "ping": 0.5,
-                "close": 0.8, "reset": 0.3, "keyupdate": 0.3, "rebind": 0.2, "corrupt": 0.5},
+                "close": 0.8, "reset": 0.3, "keyupdate": 0.3, "rebind": 0.2, "corrupt": 0.5, "truncate": 0.3},
     "cids": {"write": 3, "deliver": 8, "drop": 1.5, "dup": 0.7, "swap": 1, "timer": 2, "changecid": 2.5, "ncid": 3,
              "rebind": 0.5, "keyupdate": 0.3},
     "cidload": {"write": 3, "deliver": 5, "drop": 1, "timer": 3, "changecid": 3, "ncid": 1, "tick": 0.5},
     "amplify": {"write": 5, "deliver": 6, "drop": 2, "dup": 1, "timer": 3, "spoof": 2, "rebind": 1.5, "corrupt": 0.5, "changecid": 0.5},
-    "ptoclose": {"write": 3, "drop": 5, "timer": 4, "deliver": 1, "close": 0.6, "corrupt": 0.3},
+    "ptoclose": {"write": 3, "drop": 5, "timer": 4, "deliver": 1, "close": 0.6, "corrupt": 0.3, "truncate": 0.3},
     "blackout": {"write": 4, "deliver": 6, "drop": 1, "timer": 2, "tick": 1, "blackout": 0.5},
     "benign":  {"write": 5, "deliver": 8, "ping": 1, "tick": 1, "timer": 1},
     "lossy":   {"write": 5, "deliver": 6, "drop": 3, "timer": 3, "tick": 1, "ping": 1, "reset": 0.5, "stop": 0.3},
